@@ -41,7 +41,7 @@ REQUIRED = [
 ]
 MIN_COUNTERS = {"requests": 3000, "cache_hits": 500, "cache_misses": 500, "reloads_after_edit": 50, "evictions": 50, "namespaced_requests": 300, "gathered_requests": 50, "requests_via_tag": 300, "namespace_via_tag_context": 100, "deletions": 50}
 ASSUMPTIONS = [
-    "edits change the content of an existing source, delete it, or re-create a deleted one; no new shadowing entries are added",
+    "edits change the content of an existing source or delete it; no new shadowing entries are added (in particular a deleted source is not re-created: no caching loader can notice a new file that shadows the one it cached)",
     "file edits bump the mtime explicitly by one second per edit, so no wall-clock sleeping is needed",
 ]
 
@@ -264,7 +264,7 @@ def judge(ctx: core.Ctx, case: dict[str, Any]) -> None:
         seen_kv: dict[str, set[int]] = {}  # resolved key -> versions the twin has served (by any kind of request)
         for step_no, step in enumerate(case["steps"]):
             if step["op"] == "edit":
-                if step["key"] in store.version:
+                if step["key"] in store.version and step["key"] not in deleted:  # (a deleted source is not re-created: that would be a new shadowing entry)
                     store.edit(step["key"], text_of(step["key"], store.version[step["key"]] + 1))
                     edited_since.add(step["key"])
                     ctx.count("edits")
